@@ -720,6 +720,22 @@ def do_solve(run, slots, op, idx, regime):
         return
     cost, keyset = check_outputs(run, slot, algo, policy, outs, where, regime)
     if cost == INVALID:
+        if run.focus == "C09" and slot.dirty:
+            # Not a solution of the caller's problem (C04's business) - but if the same problem
+            # built afresh is solved properly, the history of the object changed the result,
+            # which is what C09 forbids ("running the computation again")
+            fresh = Slot(slot.spec)
+            outs2 = call_solver(run, fresh, algo, policy, op["order"], 0,
+                                where + " (fresh object)")
+            if outs2 is not None:
+                cost2, keys2 = check_outputs(run, fresh, algo, policy, outs2,
+                                             where + " (fresh object)", regime)
+                run.check(cost2 == INVALID, ("C09",), "C09.history-on-object-changes-result",
+                          lambda: f"{where}: {algo}({policy}) on the caller's object after "
+                                  f"{sorted(slot.dirty)} returns something that is not a "
+                                  f"solution of its problem, while the same problem built "
+                                  f"afresh is solved with cost {cost2}, {len(keys2)} solutions; "
+                                  f"input {slot.spec}")
         run.event(idx, "solve", algo, policy, "invalid output")
         return
     if slot.binary:
